@@ -6,6 +6,8 @@ func init() {
 	registry = append(registry, property{id: "C15", parts: []part{
 		{name: "encoding", pkg: "./c15", run: "^TestEncoding$",
 			shards: [2]int{8, 16}, checks: [2]int{25000, 1250000}, timeout: [2]time.Duration{6 * min, 40 * min}},
+		{name: "sequences", pkg: "./c15", run: "^TestSequences$",
+			shards: [2]int{8, 16}, checks: [2]int{8000, 400000}, timeout: [2]time.Duration{6 * min, 40 * min}},
 		{name: "fuzz-encoding", pkg: "./c15", fuzz: "FuzzEncoding",
 			shards: [2]int{0, 1}, fuzztime: [2]time.Duration{0, 3 * min}, timeout: [2]time.Duration{6 * min, 40 * min}},
 	}})
